@@ -9,11 +9,11 @@ m = {
  "version": 1,
  "setup_cmd": "true",
  "hooks": {"guard": "CJSON_VERIF",
-           "enable": "no hooks: /repo is never edited for verification; annotations (loop contracts, static hoisting, variadic renaming) are injected into a scratch copy on every run by tools/annotate.py",
+           "enable": "no hooks: /repo is never edited for verification; annotations (loop contracts, static hoisting, variadic renaming, typed struct copies, volatile shared error record: rules R1-R6) are injected into a scratch copy on every run by tools/annotate.py",
            "baseline_off_cmd": "cmake --build /repo/_build && ctest --test-dir /repo/_build -j8 --timeout 900",
            "source_commits": [], "add_only": True},
  "engines": [{"name": "cbmc-dfcc", "path": "tools/check.py", "serves_properties": [p for p in props if p in propinfo.PROPS],
-              "kind_free_text": "contract-based deductive verification: CBMC 6.11 code contracts enforced per function with goto-instrument --dfcc, SAT back end cadical"}],
+              "kind_free_text": "contract-based deductive verification: CBMC 6.11 code contracts enforced per function with goto-instrument --dfcc, SAT back ends cadical / minisat2 (per unit)"}],
  "checks": [], "not_applicable": [],
  "notes": "See DESIGN.md. exit 0 = all obligations deciding the property discharged; exit 1 = VIOLATION; exit 2 = undecided (tool limit), never reported as violation.",
 }
